@@ -193,6 +193,7 @@ Proof.
     + eapply vcheck_obs; eauto.
     + eapply vcheck_obs; eauto.
     + injection Hv as <-. eapply vcheck_quiesce; eauto.
+    + injection Hv as <-. eapply vcheck_close2ret; eauto.
 Qed.
 
 Lemma vholds_sexec cap vo bo ss : sexec cap vo bo ss -> vholds_from vo = [].
@@ -260,4 +261,35 @@ Lemma open_swarm_final_events_l cap xs ss p : srun cap sinit xs = Some ss ->
 Proof.
   intros H Hq Hx. apply srun_sexec in H.
   rewrite (squiet_lastpub _ _ _ _ p H Hq), (vactual_agree _ _ _ _ p H Hq Hx). auto.
+Qed.
+
+(* ---- every Swarm.Close call: once any of them has returned the shutdown is complete ---------- *)
+Definition xret (x : xpc) : bool := match x with XRetP | XDone => true | _ => false end.
+Lemma xret_mono cap ss x ss' : sstep cap ss x = Some ss' -> xret (x_pc ss) = true -> xret (x_pc ss') = true.
+Proof.
+  intros Hs H. destruct x as [l|e]; [destruct l|destruct e]; inv_sstep Hs; cbn [x_pc set_base set_sc set_refs set_x] in *;
+    try assumption; try (rewrite Heqx in H; discriminate H); try reflexivity;
+    try (unfold niling in *; destruct (x_pc ss); discriminate);
+    try (rewrite Heqx; reflexivity).
+Qed.
+Lemma close_returned_inv cap vo bo ss : sexec cap vo bo ss ->
+  In VCloseRet vo \/ In VClose2Ret vo -> xret (x_pc ss) = true.
+Proof.
+  induction 1 as [|vo bo ss x ss' He IH Hs]; [intros [[]|[]]|].
+  intros Hi. unfold vpush in Hi. destruct (svis x) as [v|] eqn:Ev.
+  - assert (Hold : In VCloseRet vo \/ In VClose2Ret vo -> xret (x_pc ss') = true)
+      by (intros Ho; eapply xret_mono; [exact Hs|auto]).
+    destruct Hi as [[Hi|Hi]|[Hi|Hi]]; auto; subst v.
+    + destruct x as [l|e]; [destruct l; discriminate Ev|destruct e; try discriminate Ev]. inv_sstep Hs. reflexivity.
+    + destruct x as [l|e]; [destruct l; discriminate Ev|destruct e; try discriminate Ev]. inv_sstep Hs; cbn; rewrite Heqx; reflexivity.
+  - eapply xret_mono; [exact Hs|auto].
+Qed.
+
+Lemma any_close_return_delivers cap xs ss c : srun cap sinit xs = Some ss ->
+  In VCloseRet (vobs xs) \/ In VClose2Ret (vobs xs) -> c < nconns (base ss) ->
+  vcnt (VConnB c) (vobs xs) = 1 /\ vcnt (VConnE c) (vobs xs) = 1 /\
+  vcnt (VDiscB c) (vobs xs) = 1 /\ vcnt (VDiscE c) (vobs xs) = 1.
+Proof.
+  intros H Hi Hc. pose proof (close_returned_inv _ _ _ _ (srun_sexec _ _ _ H) Hi) as X.
+  eapply swarm_close_delivers; eauto. destruct (x_pc ss); try discriminate X; auto.
 Qed.
